@@ -45,6 +45,12 @@ CLAIMED = {
         note="Trusted: as C02/C03. Known findings: F13 comments, F18 foreign xmlns.",
         technique="static analysis: shared A11/A13/A16 rules of C02/C03 plus who-may-call/who-may-write on the writer's normalisers",
     ),
+    "C19": dict(
+        text="Decides: the escape balance of the text carriers (text attribute, element text, CDATA content) against the once-escaping writer; that the eight text-specific attributes are consumed from the shape on every successful path, the 17 text presentation attributes and the d-text-* classes move to the text element, and an author-supplied text-loc is only ever defaulted; the (side x outside x vertical) -> alignment-class table and the inward/outward sign of text-offset against a reference table, with a style rule for every such class; one <tspan> per line of multi-line text. Anchor coordinates, spacing values and the string-level behaviour of the `\\n` splitter are not decided.",
+        design_ref="DESIGN.md section 4 C19",
+        note="Trusted: rustc MIR/HIR; quick-xml constructor semantics. Known finding: F15-residual (unknown entities in element text).",
+        technique="static analysis: reader/sink classification (A11), MIR literal-key vocabulary with must-pass on Ok exits (A14), typed-HIR match-table extraction compared with reference tables (A15/A16), loop must-pass",
+    ),
     "C06": dict(
         text="Decides the absence of order- and environment-dependent constructs: every iteration (or Debug rendering) of a HashMap/HashSet is followed to an order-insensitive consumer or a reviewed table line; clock/env/pid/unseeded-RNG calls occur only under use_local_styles and the randomised id is reset whenever local styles are off; the single Pcg32 is seeded from config.seed, reseeded only by set_config and consumed only by random()/randint(); output is merged through a BTreeMap<OrderIndex,_>. This is the whole mechanism behind the property; cross-platform floating point is outside the statement.",
         design_ref="DESIGN.md section 4 C06",
@@ -77,7 +83,6 @@ NOT_APPLICABLE = {
         "C13": "planned: attribute hygiene and route structure; distances are numeric",
         "C14": "planned: grammar skeleton and operator wiring; numeric results are not decided",
         "C16": "planned: loop/if control skeleton; equality with the unrolling compares two outputs",
-        "C19": "planned: escape balance of text carriers; anchors are numeric",
         "C20": "planned: injection gating, guard/selector agreement, url/id closure",
     }.items()
 }
